@@ -203,6 +203,21 @@ func mutantsFor(prop string) []Mutant {
 		{"C02", "an unbound back-reference matches the empty text", []Edit{{se, "\tvalue, found := es.LOOKUPVARIABLE(name)\n\tif !found {\n\t\tes.BACKTRACK()\n", "\tvalue, found := es.LOOKUPVARIABLE(name)\n\tif !found {\n\t\tes.MATCH(\"\", false, false)\n"}}},
 		{"C14", "an unbound back-reference matches the empty text", []Edit{{se, "\tvalue, found := es.LOOKUPVARIABLE(name)\n\tif !found {\n\t\tes.BACKTRACK()\n", "\tvalue, found := es.LOOKUPVARIABLE(name)\n\tif !found {\n\t\tes.MATCH(\"\", false, false)\n"}}},
 		{"C15", "the end of the input where a command may start is an error", []Edit{{ps, "\tcase EOF:\n\t\treturn nil, token_index, nil\n", "\tcase EOF:\n\t\treturn nil, token_index, NewParseError(tokens[token_index], \"Unexpected end of input\")\n"}}},
+		{"C13", "a command searches what is left after the previous command", []Edit{{"libvore/engine/engine.go", "\tresult := Matches{}\n\tfor _, command := range bytecode.Bytecode {\n\t\treader := files.ReaderFromString(searchText)\n\t\tresult = append(result, search(&command, \"text\", reader, NOTHING)...)\n\t\treader.Close()\n\t}\n", "\tresult := Matches{}\n\ttext := searchText\n\tfor _, command := range bytecode.Bytecode {\n\t\treader := files.ReaderFromString(text)\n\t\tfound := search(&command, \"text\", reader, NOTHING)\n\t\tresult = append(result, found...)\n\t\treader.Close()\n\t\tif len(found) > 0 {\n\t\t\ttext = text[found[0].Offset.Start:]\n\t\t}\n\t}\n"}}},
+		{"C04", "a command searches what is left after the previous command", []Edit{{"libvore/engine/engine.go", "\tresult := Matches{}\n\tfor _, command := range bytecode.Bytecode {\n\t\treader := files.ReaderFromString(searchText)\n\t\tresult = append(result, search(&command, \"text\", reader, NOTHING)...)\n\t\treader.Close()\n\t}\n", "\tresult := Matches{}\n\ttext := searchText\n\tfor _, command := range bytecode.Bytecode {\n\t\treader := files.ReaderFromString(text)\n\t\tfound := search(&command, \"text\", reader, NOTHING)\n\t\tresult = append(result, found...)\n\t\treader.Close()\n\t\tif len(found) > 0 {\n\t\t\ttext = text[found[0].Offset.Start:]\n\t\t}\n\t}\n"}}},
+		{"C15", "a doubled quote inside a single-quoted string stands for one quote", []Edit{{lx, "\t\t\tif ch == '\\'' {\n\t\t\t\tcurrent_state = SSTRING_END\n\t\t\t\tbreak\n\t\t\t}\n", "\t\t\tif ch == '\\'' {\n\t\t\t\tif next, _ := s.r.Peek(1); len(next) == 1 && next[0] == '\\'' {\n\t\t\t\t\ts.read()\n\t\t\t\t\tbuf.WriteRune(ch)\n\t\t\t\t\tcontinue\n\t\t\t\t}\n\t\t\t\tcurrent_state = SSTRING_END\n\t\t\t\tbreak\n\t\t\t}\n"}}},
+		{"C16", "a doubled quote inside a single-quoted string stands for one quote", []Edit{{lx, "\t\t\tif ch == '\\'' {\n\t\t\t\tcurrent_state = SSTRING_END\n\t\t\t\tbreak\n\t\t\t}\n", "\t\t\tif ch == '\\'' {\n\t\t\t\tif next, _ := s.r.Peek(1); len(next) == 1 && next[0] == '\\'' {\n\t\t\t\t\ts.read()\n\t\t\t\t\tbuf.WriteRune(ch)\n\t\t\t\t\tcontinue\n\t\t\t\t}\n\t\t\t\tcurrent_state = SSTRING_END\n\t\t\t\tbreak\n\t\t\t}\n"}}},
+		{"C16", "the text of a string literal is trimmed by the parser", []Edit{{ps, "import (\n\t\"strconv\"\n\t\"sync\"\n)", "import (\n\t\"strconv\"\n\t\"strings\"\n\t\"sync\"\n)"}, {ps, "\t\tstr_literal.Value = current_token.Lexeme\n", "\t\tstr_literal.Value = strings.TrimSpace(current_token.Lexeme)\n"}}},
+		{"C11", "a variable that spells a number is read as a number", []Edit{{ex, "\tif prs {\n\t\tstate.currentValue = val\n", "\tif prs {\n\t\tif text, isText := val.(ProcessValueString); isText {\n\t\t\tif number, err := strconv.Atoi(text.value); err == nil {\n\t\t\t\tval = ProcessValueNumber{number}\n\t\t\t}\n\t\t}\n\t\tstate.currentValue = val\n"}}},
+		{"C08", "hex escapes converted with a bit size of 8", []Edit{{lx, "value, err := strconv.ParseInt(input, 16, 64)", "value, err := strconv.ParseInt(input, 16, 8)"}}},
+		{"C15", "expression tokens filtered in place and closed with a synthetic end marker", []Edit{{ps, "\texprTokens := []*Token{}\n\ttoken_index := index\n", "\texprTokens := tokens[index:index]\n\ttoken_index := index\n"}, {ps, "\treturn exprTokens, token_index\n", "\treturn append(exprTokens, &Token{TokenType: EOF}), token_index\n"}}},
+		{"C08", "expression tokens filtered in place and closed with a synthetic end marker", []Edit{{ps, "\texprTokens := []*Token{}\n\ttoken_index := index\n", "\texprTokens := tokens[index:index]\n\ttoken_index := index\n"}, {ps, "\treturn exprTokens, token_index\n", "\treturn append(exprTokens, &Token{TokenType: EOF}), token_index\n"}}},
+		{"C01", "line end decided from one read of two bytes", []Edit{{se, "\tnextChar := es.READ(1)\n\tnextTwoChar := es.READ(2)\n\tif nextChar == \"\\n\" ||", "\tnextTwoChar := es.READ(2)\n\tnextChar := \"\"\n\tif len(nextTwoChar) > 0 {\n\t\tnextChar = nextTwoChar[:1]\n\t}\n\tif nextChar == \"\\n\" ||"}}},
+		{"C14", "line end decided from one read of two bytes", []Edit{{se, "\tnextChar := es.READ(1)\n\tnextTwoChar := es.READ(2)\n\tif nextChar == \"\\n\" ||", "\tnextTwoChar := es.READ(2)\n\tnextChar := \"\"\n\tif len(nextTwoChar) > 0 {\n\t\tnextChar = nextTwoChar[:1]\n\t}\n\tif nextChar == \"\\n\" ||"}}},
+		{"C09", "the memory stream doubles its capacity whatever is asked for", []Edit{{"libvore/files/memorystream.go", "make([]byte, len(ms.contents), 2*(ms.pos+len(buf)))", "make([]byte, len(ms.contents), 2*cap(ms.contents)+4096)"}}},
+		{"C18", "the memory stream doubles its capacity whatever is asked for", []Edit{{"libvore/files/memorystream.go", "make([]byte, len(ms.contents), 2*(ms.pos+len(buf)))", "make([]byte, len(ms.contents), 2*cap(ms.contents)+4096)"}}},
+		{"C05", "a with-string is written out between quotes", []Edit{{gen, "import (\n\t\"fmt\"\n\t\"math/rand\"\n", "import (\n\t\"fmt\"\n\t\"math/rand\"\n\t\"strconv\"\n"}, {gen, "\tresult := ReplaceString{\n\t\tValue: l.Value,\n", "\tresult := ReplaceString{\n\t\tValue: strconv.Quote(l.Value),\n"}}},
+		{"C12", "a double negation is dropped by the parser", []Edit{{ps, "\t\tlhs = AstProcessUnaryExpression{tokens[index].TokenType, rhs}\n", "\t\tif inner, isUnary := rhs.(AstProcessUnaryExpression); isUnary && inner.Op == NOT && tokens[index].TokenType == NOT {\n\t\t\tlhs = inner.Expr\n\t\t} else {\n\t\t\tlhs = AstProcessUnaryExpression{tokens[index].TokenType, rhs}\n\t\t}\n"}}},
 		{"C08", "expression scan does not stop on the EOF token", []Edit{{ps, "tokenType == BREAK || tokenType == CONTINUE || tokenType == EOF", "tokenType == BREAK || tokenType == CONTINUE"}}},
 	}
 	var out []Mutant
